@@ -2,6 +2,7 @@ package main
 
 import (
 	"github.com/dadrus/heimdall/verif/engine"
+	"github.com/dadrus/heimdall/verif/props/c01"
 	"github.com/dadrus/heimdall/verif/props/c02"
 	"github.com/dadrus/heimdall/verif/props/c06"
 	"github.com/dadrus/heimdall/verif/props/c07"
@@ -13,6 +14,7 @@ func main() {
 	checks := map[string]*engine.Check{}
 
 	for _, c := range []*engine.Check{
+		c01.Check(),
 		c02.Check(),
 		c06.Check(),
 		c07.Check(),
